@@ -535,6 +535,43 @@ def generate():
     out.append(fixture_template())
     return '\n'.join(out)
 
+ISO_LOOKAHEAD = "(?!$)  # Don't allow YYYYMM"
+ISO_GROUPS = ['year', 'monthdash', 'month', 'daydash', 'day', 'separator', 'hour', 'minute', 'second', 'second_fraction', 'timezone',
+              'tz_sign', 'tz_hour', 'tz_minute']
+
+def generate_iso():
+    """Gen/C12_Iso8601.v: the regular expression of iso8601.parse_date (third-party library, the object timeutils calls).
+    Its one look-ahead, `(?P<month>[0-9]{2})(?!$)`, is outside the regex engine: it is removed and the model rejects a match
+    in which `month` matched and neither day group did (after a 2-digit basic month the only continuation the pattern
+    offers besides a day is `$`, which the look-ahead forbids; with a day present the position is not at `$`)."""
+    import re, re._parser as P, inspect
+    import regex_tr
+    failclosed.check_all(FAILCLOSED['generate'][:1])      # timeutils.iso8601 is the real module
+    import iso8601
+    lib = iso8601.iso8601
+    pat = getattr(lib, 'ISO8601_REGEX', None)
+    if not isinstance(pat, re.Pattern) or (pat.flags & ~re.U) != re.X: raise GenError('iso8601.ISO8601_REGEX: unexpected object / flags')
+    src = pat.pattern
+    if src.count(ISO_LOOKAHEAD) != 1 or '(?' in src.replace(ISO_LOOKAHEAD, '').replace('(?P<', ''):
+        raise GenError('iso8601.ISO8601_REGEX: the look-ahead is not where it was / other extensions present')
+    # parse_date must still be: match, drop None groups, build datetime from the named groups (shape check of the source)
+    psrc = inspect.getsource(lib.parse_date)
+    for needle in ('ISO8601_REGEX.match(datestring)', 'groups.get("month", groups.get("monthdash", 1))', 'groups.get("day", groups.get("daydash", 1))',
+                   'Decimal(f"0.{groups.get(\'second_fraction\', 0)}") * Decimal("1000000.0")', 'parse_timezone(groups, default_timezone=default_timezone)'):
+        if needle not in psrc: raise GenError('iso8601.parse_date changed: %r not found' % needle)
+    try:
+        tree = P.parse(src.replace(ISO_LOOKAHEAD, ''), re.X)
+        coq = regex_tr.tr_seq(list(tree), tree.state.flags)
+    except regex_tr.Unsupported as e:
+        raise GenError('iso8601 regex: %s' % e)
+    gd = tree.state.groupdict
+    if sorted(gd) != sorted(ISO_GROUPS): raise GenError('iso8601 regex: named groups changed')
+    out = [HEADER % ('site-packages/iso8601/iso8601.py (ISO8601_REGEX)', 'tools/gen/gen_C12.py')]
+    out.append('Require Import OV.Base.Bytes OV.Base.Regex.\nOpen Scope N_scope.\n')
+    out.append('Definition iso8601_re : re := %s.\n' % coq)
+    for g in ISO_GROUPS: out.append('Definition ig_%s : nat := %d%%nat.' % (g, gd[g]))
+    return '\n'.join(out) + '\n'
+
 def translate_clear(tree):
     """clear_time_override: utcnow.override_time = None"""
     f = plain_def(tree, 'clear_time_override')
